@@ -89,6 +89,10 @@ private def getOp (j : Json) : R (MCS.Op FB) := do
   | "samples" => pure .samples
   | "recalc" => pure .recalc
   | "setGlobal" => do pure (.setGlobal (← a[1]!.getNat?))
+  | "display" =>
+    let bins := match a[1]? with | some x => (x.getNat?.toOption.getD 100) | none => 100
+    if a.size ≥ 4 then do pure (.display bins (some ((← f 2), (← f 3)))) else pure (.display bins none)
+  | "bystander" => pure .bystander
   | t => throw s!"unknown op {t}"
 
 def putOpt (o : Option (FB × FB)) : Json :=
